@@ -58,7 +58,7 @@ theorem decideExec_out (f : Flags) (iw : Bool) (want : Option Str) (unm : List S
       cases checkException f line w with
       | none => simp [OutOk]
       | some b => cases b <;> simp [OutOk]
-  | existingLoop => simp [decideExec, OutOk]
+  | existingLoop => simp [decideExec, OutOk, ExecResult.stdout]
 
 /-- the two things an iteration can do to the observable state -/
 def Untouched (s s' : RunState Env) : Prop :=
